@@ -8,32 +8,6 @@ From Coq Require Import List Arith Lia Permutation.
 Import ListNotations.
 Local Open Scope nat_scope.
 
-Inductive hop :=
-| HPut (k : key) (v : val)
-| HGetMut (k : key) (w : option val)      (* [get] is [HGetMut k None] *)
-| HPeek (k : key)
-| HRemove (k : key)
-| HRemoveLru
-| HPurge
-| HResize (c : nat).
-
-Inductive hout :=
-| OPut (r : put_result)
-| OVal (o : option val)
-| OEnt (o : option entry)
-| OUnit.
-
-Definition hstep (h : heap) (q : hlru) (o : hop) : hres (heap * hlru * hout) :=
-  match o with
-  | HPut k v => hdo (h1, q1, r) <- h_put h q k v; HOk (h1, q1, OPut r)
-  | HGetMut k w => hdo (h1, r) <- h_get_mut h q k w; HOk (h1, q, OVal r)
-  | HPeek k => hdo r <- h_peek h q k; HOk (h, q, OVal r)
-  | HRemove k => hdo (h1, q1, r) <- h_remove h q k; HOk (h1, q1, OVal r)
-  | HRemoveLru => hdo (h1, q1, r) <- h_remove_lru h q; HOk (h1, q1, OEnt r)
-  | HPurge => hdo (h1, q1) <- h_purge h q; HOk (h1, q1, OUnit)
-  | HResize c => hdo (h1, q1) <- h_resize h q c; HOk (h1, q1, OUnit)
-  end.
-
 (** the same operation in the layer-L model *)
 Definition lstep (s : lru) (o : hop) : lru * hout :=
   match o with
@@ -44,15 +18,6 @@ Definition lstep (s : lru) (o : hop) : lru * hout :=
   | HRemoveLru => let '(s1, r, _) := Lru.remove_lru s in (s1, OEnt r)
   | HPurge => (fst (Lru.purge s), OUnit)
   | HResize c => let '(s1, _, _) := Lru.resize s c in (s1, OUnit)
-  end.
-
-Fixpoint hrun (h : heap) (q : hlru) (os : list hop) : hres (heap * hlru * list hout) :=
-  match os with
-  | [] => HOk (h, q, [])
-  | o :: rest =>
-    hdo (h1, q1, r) <- hstep h q o;
-    hdo (h2, q2, rs) <- hrun h1 q1 rest;
-    HOk (h2, q2, r :: rs)
   end.
 
 Fixpoint lrun (s : lru) (os : list hop) : lru * list hout :=
@@ -249,7 +214,6 @@ Proof.
     do 2 eexists. split; [reflexivity|]. split; [exact HR2|split; congruence].
 Qed.
 
-Definition heap0 : heap := mkHeap (fun _ => Free) 0.
 
 Theorem new_refines c cb : R (fst (hnew heap0 c)) (snd (hnew heap0 c)) (lru_new c cb).
 Proof.
